@@ -14,7 +14,8 @@ CONSTANTS MaxCalls,      \* data calls after the header
           Chunkings,     \* set of <<chunked, chunkSize, comp>>
           FlagSets,      \* set of sets of flag names that are TRUE
           WithAux,       \* BOOLEAN: attachments and metadata in the workload
-          MinCalls       \* Close is enabled after this many data calls (0 in exhaustive runs; biases -simulate to long runs)
+          MinCalls,      \* Close is enabled after this many data calls (0 in exhaustive runs; biases -simulate to long runs)
+          WithAsm        \* BOOLEAN: the caller also assembles chunks itself (AddSchema, AddChannel, WriteChunkWithIndexes)
 
 VARIABLES w, phase, calls
 vars == <<w, phase, calls>>
@@ -46,19 +47,24 @@ DoHeader ==
 
 CanCall == phase = "open" /\ Len(calls) < MaxCalls
 
+(* caller's contract: a definition precedes its use in the data section; adding it to the summary is not writing it *)
+FlatSoFar == FoldLeft(LAMBDA acc, c : IF c.k = "Chunk" THEN acc \o c.items ELSE IF c.k \in {"Schema", "Channel", "Message"} THEN Append(acc, c) ELSE acc, <<>>, calls)
+Written(kind, id) == \E i \in DOMAIN FlatSoFar : FlatSoFar[i].k = kind /\ FlatSoFar[i].id = id
+
 DoSchema == CanCall /\ \E id \in SchemaIds :
   /\ w' = WriteSchema(w, SchemaVal(id))
   /\ calls' = Append(calls, [k |-> "Schema"] @@ SchemaVal(id)) /\ UNCHANGED phase
 
 DoChannel == CanCall /\ \E id \in ChannelIds, sc \in {0} \cup SchemaIds :
   /\ ChannelOK(w, ChannelVal(id, sc))
+  /\ (sc = 0 \/ Written("Schema", sc))       \* caller's contract: the schema record precedes the channel in the data (adding it is not writing it)
   /\ (HasId(w.channels, id) => \E i \in DOMAIN w.channels : w.channels[i].id = id /\ w.channels[i].schema = sc)  \* re-writes are identical
   /\ w' = WriteChannel(w, ChannelVal(id, sc))
   /\ calls' = Append(calls, [k |-> "Channel"] @@ ChannelVal(id, sc)) /\ UNCHANGED phase
 
 DoMessage == CanCall /\ \E ch \in ChannelIds, t \in Times, dl \in DataLens :
   LET m == MessageVal(ch, t, Len(calls), dl) IN
-  /\ MessageOK(w, m)
+  /\ MessageOK(w, m) /\ Written("Channel", ch)
   /\ \E cs \in (IF WillFlush(w, m) THEN CSizes([w EXCEPT !.cpos = @ + MkMessage(0, m).len]) ELSE {0}) : w' = WriteMessage(w, m, cs)
   /\ calls' = Append(calls, [k |-> "Message"] @@ m) /\ UNCHANGED phase
 
@@ -75,7 +81,55 @@ DoClose ==
   /\ \E cs \in (IF w.cfg.chunked /\ w.cpos > 0 THEN CSizes(w) ELSE {0}) : w' = Close(w, cs)
   /\ phase' = "closed" /\ UNCHANGED calls
 
+(* ---- the remuxing entry points.  The caller's side of the contract is part of the enabling conditions: an assembled
+   chunk carries the channel record of every message in it (so it is self-contained), its schema-less or already
+   written schema, true times and exact indexes; it is handed over only while the writer's own chunk buffer is empty
+   (otherwise the file order differs from the call order by the caller's own doing). *)
+RegisteredChannel(id) == IF HasId(w.channels, id) THEN w.channels[CHOOSE i \in DOMAIN w.channels : w.channels[i].id = id] ELSE ChannelVal(id, 0)
+
+DoAddSchema == CanCall /\ WithAsm /\ \E id \in SchemaIds :
+  /\ w' = AddSchema(w, SchemaVal(id))
+  /\ calls' = Append(calls, [k |-> "AddSchema"] @@ SchemaVal(id)) /\ UNCHANGED phase
+
+DoAddChannel == CanCall /\ WithAsm /\ \E id \in ChannelIds :
+  /\ w' = AddChannel(w, RegisteredChannel(id))
+  /\ calls' = Append(calls, [k |-> "AddChannel"] @@ RegisteredChannel(id)) /\ UNCHANGED phase
+
+ChunkForms == {"def", "def+msg", "def+msg+msg", "two-channels"}     \* both overridden in the quick configuration
+IdxModes   == {"exact", "none", "extra"}
+Forms_quick == {"def+msg", "two-channels"}
+Idx_quick   == {"exact", "none"}
+ItemsOf(form, ch, t1, t2, n) ==
+  LET c == [k |-> "Channel"] @@ RegisteredChannel(ch)
+      m(t, q) == [k |-> "Message"] @@ MessageVal(ch, t, q, 5) IN
+  CASE form = "def" -> <<c>>
+    [] form = "def+msg" -> <<c, m(t1, n)>>
+    [] form = "def+msg+msg" -> <<c, m(t1, n), m(t2, n + 100)>>
+    [] OTHER -> LET o == CHOOSE x \in ChannelIds : x # ch \/ Cardinality(ChannelIds) = 1
+                    co == [k |-> "Channel"] @@ RegisteredChannel(o) IN
+                <<c, co, [k |-> "Message"] @@ MessageVal(o, t2, n, 0), m(t1, n + 100)>>
+
+DoExtChunk == CanCall /\ WithAsm /\ w.cpos = 0 /\ \E form \in ChunkForms, ch \in ChannelIds, t1, t2 \in Times, idx \in IdxModes :
+  LET items == ItemsOf(form, ch, t1, t2, Len(calls))
+      \* a channel whose schema is not 0 is usable only when that schema was written (not merely added) before
+      usable == \A i \in DOMAIN items : items[i].k = "Channel" => (items[i].schema = 0 \/ Written("Schema", items[i].schema))
+      c0 == ExtChunk(items, "", 0, ~w.cfg.crc)
+      c == [c0 EXCEPT !.csize = c0.usize]
+      exact == ExactIdx(c.inner)
+      given == CASE idx = "exact" -> exact
+                 [] idx = "none" -> <<>>
+                 [] OTHER -> <<[ch |-> 9, entries |-> <<>>]>> \o exact IN
+  /\ usable
+  /\ (form = "def" => t1 = 0 /\ t2 = 0) /\ (form = "def+msg" => t2 = t1)        \* unused parameters are fixed (no duplicate transitions)
+  /\ (idx = "none" => w.cfg.skipMsgIdx)             \* handing over no indexes is the caller's way of skipping them
+  \* ... and then a chunk whose messages all have log time 0 is indistinguishable from one without messages: as coded
+  \* it does not extend the statistics time range, so the caller has to pass the indexes (or set the range itself)
+  /\ (idx = "none" => (c.start # 0 \/ c.end # 0 \/ \A i \in DOMAIN items : items[i].k # "Message"))
+  /\ w' = CallerCounts(WriteChunkWithIndexes(w, c, given), items)
+  /\ calls' = Append(calls, [k |-> "Chunk", items |-> items, idx |-> idx, comp |-> ""]) /\ UNCHANGED phase
+
 Next == DoHeader \/ DoSchema \/ DoChannel \/ DoMessage \/ DoAttachment \/ DoMetadata \/ DoClose
+        \/ DoAddSchema \/ DoAddChannel \/ DoExtChunk
 Spec == Init /\ [][Next]_vars
 
 (* ------------------------------------------------ constants for the .cfg files *)
@@ -84,28 +138,36 @@ Chunkings_small == { <<FALSE, 0, "">>, <<TRUE, 1, "">>, <<TRUE, 40, "zstd">>, <<
 Chunkings_two   == { <<FALSE, 0, "">>, <<TRUE, 40, "">> }
 Chunkings_sim   == { <<FALSE, 0, "">>, <<TRUE, 1, "">>, <<TRUE, 40, "">>, <<TRUE, 100, "xor">>, <<TRUE, 1000, "">> }
 Flags_few  == { {}, {"crc"}, AllSkips \ {"skipSumOffsets"}, {"skipSumOffsets", "skipMagic", "crc"} }
+OldChunkIndexTrue == TRUE
+Flags_asm_quick == { {"crc"}, {"skipMsgIdx", "skipRepChannels"} }
+Flags_asm  == { {"crc"}, {"skipMsgIdx"}, {"skipRepChannels", "skipStats", "crc"}, {"skipChunkIdx", "skipSumOffsets"} }
 Flags_all  == SUBSET (AllSkips \cup {"crc"})          \* 512 combinations (skipMagic only shifts every position by 8)
 Flags_all_magic == {fs \cup m : fs \in SUBSET AllSkips, m \in {{}, {"skipMagic", "crc"}}}
 
 (* ------------------------------------------------------------ properties *)
+FlatCalls == FlatSoFar
 ContentOfCalls ==
-  [data |-> Sel(calls, LAMBDA c : c.k \in {"Schema", "Channel", "Message"}),
+  [data |-> FlatCalls,
    atts |-> Sel(calls, LAMBDA c : c.k = "Attachment"),
    mds  |-> Sel(calls, LAMBDA c : c.k = "Metadata")]
+(* what the caller registered with the writer, by writing or by adding it: the summary repeats exactly these; a
+   channel or schema that only occurs inside an assembled chunk is not known to the writer *)
+RegS == FirstById(Sel(calls, LAMBDA c : c.k \in {"Schema", "AddSchema"}))
+RegC == FirstById(Sel(calls, LAMBDA c : c.k \in {"Channel", "AddChannel"}))
 
 Closed == phase = "closed"
 F == FileOf(w)
 
 WellFormedInv == Closed => Failed("C05", WellFormedNames(F)) = {} /\ ChunksOK(F) /\ F.lead = ~w.cfg.skipMagic
-IndexExactInv == Closed => Failed("C05", IndexExactNames(F, w.cfg)) = {}
+IndexExactInv == Closed => Failed("C05", IndexExactNamesR(F, w.cfg, RegS, RegC)) = {}
 ContentInv    == Closed => Failed("C05", SameContentNames(ContentOfCalls, FileContent(F))) = {}
 CrcInv        == Closed => Failed("C06", CrcNames(F, w.cfg)) = {}
 StatsInv      == (Closed /\ ~w.cfg.skipStats) =>
                    LET sr == Sel(SummaryRecs(F), LAMBDA r : r.k = "Statistics") IN
-                   Len(sr) = 1 /\ Failed("C08", StatsNames(sr[1], ContentOfCalls, Cardinality(KindIdx(F, "Chunk")))) = {}
+                   Len(sr) = 1 /\ Failed("C08", StatsNamesR(sr[1], ContentOfCalls, Cardinality(KindIdx(F, "Chunk")), {x.r.id : x \in Range(RegS)}, {x.r.id : x \in Range(RegC)})) = {}
 (* the public statistics are exact after every call, not only at Close (stronger than C08 needs) *)
 LiveStatsInv  == phase = "open" =>
-                   LET ms == Sel(calls, LAMBDA c : c.k = "Message")  ts == {m.log : m \in Range(ms)} IN
+                   LET ms == Sel(FlatCalls, LAMBDA c : c.k = "Message")  ts == {m.log : m \in Range(ms)} IN
                    /\ w.stats.msgs = Len(ms)
                    /\ w.stats.start = (IF ts = {} THEN 0 ELSE MinOf(ts)) /\ w.stats.end = (IF ts = {} THEN 0 ELSE MaxOf(ts))
 (* behaviour export for the replay direction (spec -> code): printed once per closed state under -simulate *)
